@@ -235,7 +235,13 @@ func c14Inject(rt *rapid.T, r *gast.Rule, st *facts.State) (where string, kind s
 	var st2 gast.Stmt = &gast.Assign{LHS: gast.P("F", "I32"), Op: "=", RHS: f.Mk()}
 	if rapid.IntRange(0, 3).Draw(rt, "fail_stmt_kind") == 0 {
 		// failing store instead of failing evaluation
-		switch rapid.IntRange(0, 3).Draw(rt, "fail_store") {
+		switch rapid.IntRange(0, 5).Draw(rt, "fail_store") {
+		case 4:
+			st2 = &gast.Assign{LHS: gast.P("J", "arr").At(gast.I(99)), Op: "=", RHS: gast.I(1)}
+			f.Name = "store_json_index_out_of_range"
+		case 5:
+			st2 = &gast.Assign{LHS: gast.P("J", "arr").At(gast.I(-1)), Op: "=", RHS: gast.I(1)}
+			f.Name = "store_json_negative_index"
 		case 3:
 			st2 = &gast.Assign{LHS: gast.P("F", "M").At(gast.I(97)), Op: "=", RHS: gast.I(1)}
 			f.Name = "store_integer_key_on_string_map"
